@@ -29,13 +29,13 @@ CLAIMS = {
          "leaves graph, cursor, statuses and state locks exactly as one of the scripted finishing roles does (unblocked success = remove + hand-off; "
          "otherwise wait for some predecessor / re-queue / own commit barrier). Induction: one step with concurrency inside, on the real TxDependency code (next/add/remove/commit/key_tx) and the real "
          "Scheduler::execution_task (status dispatch of every cursor claim / direct hand-off on a real Scheduler's tx_states; MIR -> C): from an "
-         "arbitrary state satisfying a stated representation invariant, every role alone and 16 pairs (thorough: 7 more pairs, 5 triples, n=4) of scheduler roles run "
+         "arbitrary state satisfying a stated representation invariant, every role alone and 16 pairs (thorough: 7 more pairs, 2 triples, n=4) of scheduler roles run "
          "concurrently under all interleavings and must re-establish the invariant (live reverse edge, blocker live, cursor reaches every "
          "claimable tx, no stale release, barrier only below the committed prefix, lock order); a sequential harness shows invariant => "
          "every transaction completes (no orphan). n=3 (thorough n=4).",
     note=TRUST + "The finishing actions of executors / validators (what execute_task / validate do with the graph, then the status publication under "
          "the state lock) are scripted roles over the real TxDependency calls; the ghost phase is tied to the real status field. Pairs SN, SS, NN, XS and "
-         "triples BBS, SSB, BBN got no verdict within an hour each and are not registered. Blocked lock acquisition is an assume; lock-order "
+         "triples BBS, SSB, BBN got no verdict within an hour each; triples KCN, BNC, BSC were not re-measured with the real dispatch; none of them is registered. Blocked lock acquisition is an assume; lock-order "
          "assertions stand in for deadlock freedom.",
     design="5/C16"),
  "C17": dict(
